@@ -26,4 +26,18 @@ CHECKS["C20"] = {"engine": "fsx", "technique": "symbolic fault-schedule explorat
     "level_note": _FSX + " Kernel-level races, signals and SIGKILL are outside the claim.",
     "design_ref": "DESIGN.md 2.3, 6 (C20)"}
 ENGINES.append({"name": "fsx", "path": "/verif/fsx", "serves_properties": ["C19", "C20"], "kind_free_text": "in-memory OS model + ksym decision-tree exploration of environment/fault variables; the real body of scriptplan.cli.plan.report runs with rebound module globals; replay against the real CLI in a subprocess"})
+_SX = "Trusted base: CrossHair 0.0.110 + z3 5.1.0; floats as reals inside traced runs; IntTime clock; calendars and limit-period indices tabulated by the real methods before tracing; independent oracles sx/oracle.py; counterexamples replayed through the public API before reporting."
+ENGINES.append({"name": "sx", "path": "/verif/sx", "serves_properties": ["C01", "C03", "C04", "C05", "C06", "C08", "C10", "C11"], "kind_free_text": "CrossHair (symbolic execution of Python with z3) on the real Project.scheduleScenario/finishScenario and everything below, driven programmatically with an exhaustion spy; projects built from declarative specs; symbolic efforts/priorities/pinned offsets"})
+def _sx(pid, what, ref):
+    CHECKS[pid] = {"engine": "sx", "technique": "bounded symbolic execution (CrossHair + z3) of the real scheduler on spec-built projects, independent oracle as postcondition",
+        "level_text": "Bounded symbolic verification per cell: " + what + " A cell counts as discharged only when CrossHair exhausted its path tree with verdict CONFIRMED; cells that ran out of budget are reported as explored (bug hunting) in the evidence.",
+        "level_note": _SX, "design_ref": ref}
+_sx("C01", "per slot and resource the booked seconds never exceed the slot, the used-seconds counter covers them, and the reported intervals of sharers are disjoint inside the slot, for every effort vector (symbolic seconds) of the template family.", "DESIGN.md 6 (C01)")
+_sx("C03", "booked seconds x efficiency equal the requested effort within one second, team members carry identical bookings, exactly one candidate allocation is booked.", "DESIGN.md 6 (C03)")
+_sx("C04", "every edge re-derived from the spec (own, inherited from containers, precedes; on-end / on-start; gaps 29min/1h/1d in calendar time) is respected by the reported dates.", "DESIGN.md 6 (C04)")
+_sx("C05", "per calendar day / ISO week computed by the oracle the booked seconds never exceed dailymax/weeklymax on a resource, a group, a task, a parent task, incl. the horizon beyond the declared end, year ends, ISO week 53, ALAP.", "DESIGN.md 6 (C05)")
+_sx("C06", "first/last booked slot are the slots of start/end, the interval is long enough for the work booked in them, start <= end, work implies positive length.", "DESIGN.md 6 (C06)")
+_sx("C08", "every working slot with free seconds between a forward task's dependency bound and its end carries an entry of the task, and the task starts at the first instant its resource is free for it.", "DESIGN.md 6 (C08)")
+_sx("C10", "container.scheduled <=> all children scheduled, start/end = min/max of the children at every level, only leaf tasks and leaf resources carry bookings; incl. unschedulable leaves.", "DESIGN.md 6 (C10)")
+_sx("C11", "no exception escapes scheduling, every leaf is scheduled inside the horizon or unscheduled with a warning, and the number of slot steps stays proportional to leaves x horizon (a hang becomes a counterexample); efforts 0..400 h, pins from before the start to past the end, cycles, resources that never work.", "DESIGN.md 6 (C11)")
 NOT_APPLICABLE = {}
